@@ -18,11 +18,19 @@
      SizeTruthful PartLengthTruthful WriterMalformed WriterPartCount WriterStructure
      WriterContent WriterHeaders WriterRefused
      PartMissing PartPhantom PartKind ReaderHeaders ReaderError ReaderContent DecodeContent
-     DecodeChunkwise<codec> NameRoundTrip FilenameRoundTrip NameLeadingSlash NotAtEof
+     NameRoundTrip FilenameRoundTrip NotAtEof
      EmptyChunk EmptyChunkLoop ChunkTooLarge NoTermination ReaderStuck StepBound WorkBound
      FieldLimitNotEnforced HeadersLimitNotEnforced LimitSpurious LimitLate
      ClientMaxNotEnforced ClientMaxSpurious ClientMaxLate PostFieldCount PostContent
-   REFINEMENT clauses (drift): SizeNone.                                               *)
+   Clauses that name one specific deviation each (so that a known-findings entry can match
+   exactly that and nothing else):
+     DecodeChunkwise<codec>  chunk-wise decode() of a transfer-encoded part fails / corrupts
+     ReadlineEndNotEof       readline() signals the end of the part before at_eof()
+     WriterAssertion         the writer dies with AssertionError on input it accepted
+     NameLeadingSlash        leading path separators stripped from a field NAME
+   REFINEMENT clauses (drift): SizeNone.
+   A clause violated inside a read session is recorded (viol) and ends the judgement of that
+   session only; a violated writer clause ends the trace.                               *)
 EXTENDS Multipart, TraceBatch
 
 VARIABLES tid, l, m, bad, drift, viol
